@@ -26,8 +26,11 @@ extern "C" {
 /// not live (double free, foreign pointer) aborts.  A read through a dangling subtree pointer therefore sees
 /// poison (the dump differs / the process dies) instead of the old content "by luck".
 const HDR: usize = 16;
+/// guard bytes behind every block: a write past the end is detected when the block is freed / reallocated
+const TAIL: usize = 8;
+const TAIL_BYTE: u8 = 0xC3;
 unsafe fn blk_new(n: usize, fill: u8) -> *mut c_void {
-    let base = malloc(n + HDR);
+    let base = malloc(n + HDR + TAIL);
     if base.is_null() {
         return base;
     }
@@ -35,6 +38,7 @@ unsafe fn blk_new(n: usize, fill: u8) -> *mut c_void {
     *(base as *mut usize).add(1) = 0x7573_6564;
     let p = (base as *mut u8).add(HDR) as *mut c_void;
     memset(p, fill as i32, n);
+    memset((p as *mut u8).add(n) as *mut c_void, TAIL_BYTE as i32, TAIL);
     p
 }
 unsafe fn blk_size(p: *mut c_void) -> usize {
@@ -43,7 +47,12 @@ unsafe fn blk_size(p: *mut c_void) -> usize {
         eprintln!("c08: free/realloc of a block that is not live (double free or foreign pointer)");
         std::process::abort();
     }
-    *base
+    let n = *base;
+    if !(0..TAIL).all(|i| *(p as *mut u8).add(n + i) == TAIL_BYTE) {
+        eprintln!("c08: heap overrun: the guard bytes behind a block of {n} bytes were overwritten");
+        std::process::abort();
+    }
+    n
 }
 unsafe fn blk_drop(p: *mut c_void) {
     let n = blk_size(p);
